@@ -19,6 +19,12 @@ S_3x    == <<51, 120>>               \* "3x"     starts like a number
 S_inf   == <<105, 110, 102>>         \* "inf"
 S_nan   == <<110, 97, 110>>          \* "nan"
 S_1_0   == <<49, 95, 48>>            \* "1_0"
+\* text that spells a logical is text, not a logical and not numeric text:
+\* "TRUE"+1 is #VALUE! (TRUE+1 is 2), "TRUE"&1 is "TRUE1", "TRUE" < TRUE
+S_TRUE  == <<84, 82, 85, 69>>                \* "TRUE"
+S_true  == <<116, 114, 117, 101>>            \* "true"
+S_False == <<70, 97, 108, 115, 101>>         \* "False"
+S_spFALSE == <<32, 70, 65, 76, 83, 69>>      \* " FALSE"  a space before it
 \* text spelled like an error value is text: "#REF!"&"x" is "#REF!x", "#REF!"+1 is #VALUE!
 S_ref   == <<35, 82, 69, 70, 33>>            \* "#REF!"
 S_na    == <<35, 78, 47, 65>>                \* "#N/A"
@@ -30,6 +36,7 @@ MCPool == <<
    Text(S_3), Text(S_m1), Text(S_05), Text(S_sp3sp),
    Text(S_a), Text(S_A), Text(S_b), Text(S_empty), Text(S_3x),
    Text(S_inf), Text(S_nan), Text(S_1_0),
+   Text(S_TRUE), Text(S_true), Text(S_False), Text(S_spFALSE),
    Text(S_ref), Text(S_na), Text(S_empty_code),
    TRUEV, FALSEV,
    Blank,
@@ -47,24 +54,33 @@ ASSUME BlankBreaksTransitivity ==
 
 \* a few fixed points of the definitions, as documentation that TLC checks
 ASSUME Examples ==
-   /\ Apply("+", Text(S_sp3sp), TRUEV) = IntV(4)            \* " 3 " + TRUE
-   /\ Apply("&", IntV(3), Num(1, 2)) = Text(<<51, 48, 46, 53>>)   \* 3 & 0.5 = "30.5"
-   /\ Apply("&", TRUEV, Blank) = Text(TrueText)
-   /\ Apply("^", IntV(-1), Num(1, 2)) = NUM                 \* (-1)^0.5
-   /\ Apply("^", Num(21, 2), IntV(400)) = NUM               \* 10.5^400 overflows
-   /\ Apply("^", IntV(2), IntV(-1)) = Num(1, 2)
-   /\ Apply("^", IntV(0), IntV(-1)) = DIV0
-   /\ Apply("/", Text(S_a), IntV(0)) = VALUE                \* coercion fails first
-   /\ Apply("=", Text(S_3), IntV(3)) = FALSEV               \* numeric text is text
-   /\ Apply("<", IntV(400), Text(S_empty)) = TRUEV          \* number < text
-   /\ Apply(">", FALSEV, Text(S_b)) = TRUEV                 \* text < logical
-   /\ Apply("=", Text(S_a), Text(S_A)) = TRUEV
-   /\ Apply("+", Text(S_inf), IntV(1)) = VALUE
-   /\ Apply("+", Text(S_ref), IntV(1)) = VALUE
-   /\ Apply("&", Text(S_na), Text(S_a)) = Text(S_na \o S_a)
-   /\ Apply("=", Text(S_na), Text(S_na)) = TRUEV
-   /\ Apply(">", Text(S_ref), IntV(400)) = TRUEV            \* it is text: above every number
-   /\ Apply("+", Err("#N/A"), Err("#REF!")) = Err("#N/A")
-   /\ Apply1("%", Text(S_05)) = Num(1, 200)
-   /\ Apply1("u-", Blank) = IntV(0)
+   /\ ApplyS("+", Text(S_sp3sp), TRUEV) = IntV(4)           \* " 3 " + TRUE
+   /\ ApplyS("+", Text(S_TRUE), IntV(1)) = VALUE            \* "TRUE" + 1: text, not the logical
+   /\ ApplyS("*", IntV(5), Text(S_False)) = VALUE
+   /\ ApplyS("+", Text(S_true), Err("#N/A")) = Err("#N/A")  \* an error operand goes first
+   /\ ApplyS("+", Text(S_a), Text(S_TRUE)) = VALUE
+   /\ Apply1S("u-", Text(S_spFALSE)) = VALUE
+   /\ Apply1S("%", Text(S_true)) = VALUE
+   /\ ApplyS("&", Text(S_TRUE), IntV(1)) = Text(S_TRUE \o <<49>>)
+   /\ ApplyS("=", Text(S_true), TRUEV) = FALSEV             \* text < logical
+   /\ ApplyS("=", Text(S_true), Text(S_TRUE)) = TRUEV
+   /\ ApplyS("&", IntV(3), Num(1, 2)) = Text(<<51, 48, 46, 53>>)   \* 3 & 0.5 = "30.5"
+   /\ ApplyS("&", TRUEV, Blank) = Text(TrueText)
+   /\ ApplyS("^", IntV(-1), Num(1, 2)) = NUM                 \* (-1)^0.5
+   /\ ApplyS("^", Num(21, 2), IntV(400)) = NUM               \* 10.5^400 overflows
+   /\ ApplyS("^", IntV(2), IntV(-1)) = Num(1, 2)
+   /\ ApplyS("^", IntV(0), IntV(-1)) = DIV0
+   /\ ApplyS("/", Text(S_a), IntV(0)) = VALUE                \* coercion fails first
+   /\ ApplyS("=", Text(S_3), IntV(3)) = FALSEV               \* numeric text is text
+   /\ ApplyS("<", IntV(400), Text(S_empty)) = TRUEV          \* number < text
+   /\ ApplyS(">", FALSEV, Text(S_b)) = TRUEV                 \* text < logical
+   /\ ApplyS("=", Text(S_a), Text(S_A)) = TRUEV
+   /\ ApplyS("+", Text(S_inf), IntV(1)) = VALUE
+   /\ ApplyS("+", Text(S_ref), IntV(1)) = VALUE
+   /\ ApplyS("&", Text(S_na), Text(S_a)) = Text(S_na \o S_a)
+   /\ ApplyS("=", Text(S_na), Text(S_na)) = TRUEV
+   /\ ApplyS(">", Text(S_ref), IntV(400)) = TRUEV            \* it is text: above every number
+   /\ ApplyS("+", Err("#N/A"), Err("#REF!")) = Err("#N/A")
+   /\ Apply1S("%", Text(S_05)) = Num(1, 200)
+   /\ Apply1S("u-", Blank) = IntV(0)
 =============================================================================
